@@ -28,6 +28,7 @@ impl Family for C08Family {
             real: &["Authenticator::get_assertion", "Authenticator::make_credential", "Client::{register,authenticate}", "AuthenticatorData counter encoding"],
             stubs: &["executor", "SimStore seam + reference store", "SimUser", "seeded RNG behind the hook"],
             crash_isolated: false,
+            fresh_thread: true,
         }
     }
 
